@@ -83,6 +83,9 @@ type Explorer struct {
 
 	ifConverted int64
 	mergedCalls int
+	oneShots    int64
+	winners     map[string]int
+	Race        []string
 	mergedPaths int
 	mu          sync.Mutex
 	notes       []string
@@ -220,6 +223,10 @@ func (x *Explorer) Run() *Report {
 					if err != nil {
 						panic(err)
 					}
+					if d := os.Getenv("GOSYM_LOG"); d != "" {
+						f, _ := os.CreateTemp(d, "solver-*.smt2")
+						solver.Log = f
+					}
 				}
 				res := x.runPath(solver, script)
 				if solver.Queries > 20000 {
@@ -354,4 +361,33 @@ func (rep *Report) TopFuncs(n int) []string {
 		out = append(out, fmt.Sprintf("%s:%d", l[i].k, l[i].v))
 	}
 	return out
+}
+
+func (x *Explorer) countOneShot() { atomic.AddInt64(&x.oneShots, 1) }
+
+func (x *Explorer) raceSolvers() []string {
+	if len(x.Race) > 0 {
+		return x.Race
+	}
+	return []string{"z3", "z3-new"}
+}
+
+func (x *Explorer) countWinner(k string) {
+	x.mu.Lock()
+	if x.winners == nil {
+		x.winners = map[string]int{}
+	}
+	x.winners[k]++
+	x.mu.Unlock()
+}
+
+// Stats returns solver usage counters.
+func (x *Explorer) Stats() (oneShots int64, winners map[string]int) {
+	x.mu.Lock()
+	defer x.mu.Unlock()
+	w := map[string]int{}
+	for k, v := range x.winners {
+		w[k] = v
+	}
+	return atomic.LoadInt64(&x.oneShots), w
 }
